@@ -1,6 +1,7 @@
 package meta
 
 import (
+	"bytes"
 	"encoding/binary"
 	"fmt"
 	"strconv"
@@ -279,6 +280,12 @@ func syncContainerCounters(b *bbolt.Bucket, force bool) error {
 			continue
 		}
 		if inGarbage(cInt, obj) != statusAvailable {
+			continue
+		}
+		// objects with any garbage mark (incl. redundant ones) are already
+		// excluded from the payload counter by MarkGarbage
+		garbKey := mkGarbageKey(obj)
+		if k, _ := cInt.Seek(garbKey); bytes.Equal(k, garbKey) {
 			continue
 		}
 		sizeRaw := getObjAttribute(cInt, obj, object.FilterPayloadSize)
